@@ -383,33 +383,37 @@ def resolveKey (eff : MetaCfg) (ci : ClassInfo) (key : S) : Except LErr KeyRes :
           | some f => pure (.field f)
           | none => pure .unknown
 
-/-- `cls(**init_kwargs)` and the MissingFields conversion; builds the instance in field order -/
+/-- the catch-all field receives the captured pairs (always when it has no default, else only when non-empty) -/
+def withCatchAll (ci : ClassInfo) (kwargs : List (S × PyVal)) (catchAll : List (PyVal × PyVal)) : List (S × PyVal) :=
+  match ci.fields.find? (·.isCatchAll) with
+  | none => kwargs
+  | some cf =>
+    if cf.dflt.isNone || !catchAll.isEmpty then kwargs ++ [(cf.name, PyVal.map .dict catchAll)] else kwargs
+
+/-- constructor fields without default that were not provided -/
+def missingInit (ci : ClassInfo) (provided : List S) : List FieldInfo :=
+  ci.fields.filter (fun f => f.init && f.dflt.isNone && !provided.contains f.name)
+
+/-- `cls(**kwargs)`: per field the last supplied value, else the default, else the `__post_init__` value -/
+def buildFields (kwargs : List (S × PyVal)) : List FieldInfo → Except LErr (List (S × PyVal))
+  | [] => pure []
+  | f :: r =>
+    match (if f.init then kwargs.reverse.find? (fun p => p.1 == f.name) else none), f.dflt with
+    | some p, _ => do let rest ← buildFields kwargs r; pure ((f.name, p.2) :: rest)
+    | none, some d => do let rest ← buildFields kwargs r; pure ((f.name, d.toPy) :: rest)
+    | none, none =>
+      match f.postInit with
+      | some l => do let rest ← buildFields kwargs r; pure ((f.name, l.toPy) :: rest)
+      | none => .error (.unsupported "init=False field without default".toList)
+
+/-- `cls(**init_kwargs)` and the MissingFields conversion (after fix 88cf12a: constructor fields only) -/
 def finishClass (ci : ClassInfo) (kwargs : List (S × PyVal)) (catchAll : List (PyVal × PyVal)) (_o : JVal) : LRes :=
-  let kwargs :=
-    match ci.fields.find? (·.isCatchAll) with
-    | none => kwargs
-    | some cf =>
-      if cf.dflt.isNone || !catchAll.isEmpty then kwargs ++ [(cf.name, PyVal.map .dict catchAll)] else kwargs
-  let provided := kwargs.map (·.1)
-  let missingInit := (ci.fields.filter (fun f => f.init && f.dflt.isNone && !provided.contains f.name))
-  if !missingInit.isEmpty then
-    -- MissingFields lists every constructor field without default that was not provided (after fix 88cf12a)
-    .error (.missingFields ci.name (missingInit.map (·.name)))
-  else
-    let rec build (fs : List FieldInfo) : Except LErr (List (S × PyVal)) :=
-      match fs with
-      | [] => pure []
-      | f :: r =>
-        match (if f.init then kwargs.reverse.find? (fun p => p.1 == f.name) else none), f.dflt with
-        | some p, _ => do let rest ← build r; pure ((f.name, p.2) :: rest)
-        | none, some d => do let rest ← build r; pure ((f.name, d.toPy) :: rest)
-        | none, none =>
-          match f.postInit with
-          | some l => do let rest ← build r; pure ((f.name, l.toPy) :: rest)
-          | none => .error (.unsupported "init=False field without default".toList)
-    do
-      let fs ← build ci.fields
+  let kw := withCatchAll ci kwargs catchAll
+  match missingInit ci (kw.map (·.1)) with
+  | [] => do
+      let fs ← buildFields kw ci.fields
       pure (.inst ci fs)
+  | m :: ms => .error (.missingFields ci.name ((m :: ms).map (·.name)))
 
 /-- a list / string where a dataclass dict was expected: the loop iterates its elements as keys -/
 def loadJunkKeys (eff : MetaCfg) (ci : ClassInfo) (o : JVal) : List JVal → LRes
@@ -419,15 +423,15 @@ def loadJunkKeys (eff : MetaCfg) (ci : ClassInfo) (o : JVal) : List JVal → LRe
     | .str k =>
       match resolveKey eff ci k with
       | .error err => .error err
-      | .ok (.field _) => .error (.parse (some ci.name) none)
+      | .ok (.field _) => .error (.parse none none)
       | .ok .ignored => loadJunkKeys eff ci o r
       | .ok .unknown =>
         if eff.raiseOnUnknown.getD false then .error (.unknownKeys ci.name [k])
         else if (ci.fields.any (·.isCatchAll)) && !(eff.tag.isSome && k == eff.tagKey.getD Generated.tagKey.toList) then
-          .error (.parse (some ci.name) none)
+          .error (.parse none none)
         else loadJunkKeys eff ci o r
-    | .list _ => .error (.parse (some ci.name) none)
-    | .dict _ => .error (.parse (some ci.name) none)
+    | .list _ => .error (.parse none none)
+    | .dict _ => .error (.parse none none)
     | _ => rawE "AttributeError"
 
 /-- the `for json_key in o:` loop over a dict, given the per-field loader -/
@@ -459,7 +463,7 @@ def loadClassWith (fieldLoader : S → JVal → LRes) (eff : MetaCfg) (ci : Clas
       -- `for json_key in o` iterates the elements; `o[json_key]` then fails with TypeError -> ParseError
       loadJunkKeys eff ci (.list xs) xs
   | .str s => loadJunkKeys eff ci (.str s) (s.map (fun c => JVal.str [c]))
-  | _ => .error (.parse (some ci.name) none)
+  | _ => .error (.parse none none)    -- the class is only the error's *default* class: an enclosing handler's wins
 
 /-- `load_to_typed_dict` on a non-dict: `o[k]` for a required key raises (-> ParseError); an optional key is
 only looked at when `k in o` holds (list membership / substring test), and then `o[k]` raises as well. -/
@@ -663,7 +667,9 @@ end
 def fromdict (std : Std) : Ty → JVal → LRes
   | .cls ci ftys, o =>
       let cfg := rootConfig ci.cmeta
-      loadClassWith (fun f v => loadField std cfg f v ftys) (effMeta ci.cmeta none) ci o
+      match loadClassWith (fun f v => loadField std cfg f v ftys) (effMeta ci.cmeta none) ci o with
+      | .error (.parse none f) => .error (.parse (some ci.name) f)     -- no enclosing handler: the default class shows
+      | r => r
   | _, _ => .error (.unsupported "not a dataclass".toList)
 
 end DW
